@@ -38,7 +38,11 @@ META = {
             "k>1, entropy(), snapshots= subsampling, other interfaces (torch/jax/tf), process_density_matrix_with_shots "
             "and non-default devices are not covered. Nonnegativity of the weights (rho PSD) is not stated in Coq. "
             "Floating point: all compared implementation outputs are exactly representable dyadic numbers "
-            "(coefficients are multiples of 1/8).",
+            "(coefficients are multiples of 1/8). The Coq predicate well_formed is evaluated on the first 400 rows "
+            "of each device record (Python evaluates the same ranges on all rows). KNOWN on the pinned tree: "
+            "qml.shadow_expval returns estimates for the wrong qubits when the tape is remapped to standard wires "
+            "(ShadowExpvalMP keeps its observable in .H, which MeasurementProcess.map_wires does not remap); reported "
+            "under the stable key direct:device:shadow_expval-after-wire-remap by a fixed regression case.",
     "assumptions": ["expval k=1 (mean); k>1 median-of-means not modelled",
                     "device statistics: thresholds p>1e-9 (chi-square) and 7 sigma; seeds derived from VERIF_SEED"],
     "trusted": ["hand-written model coq/Num/ShadowsModel.v tied to /repo by exact correspondence on full enumerations (n<=3)",
